@@ -172,16 +172,18 @@ class PFlow(BaseRoutine):
             else:
                 self.mis.append(mis)
 
+            # `nr_step` has already added the increment to the variables: an increment with NaN
+            # (singular Jacobian) leaves no solution, whatever the mismatch before the update was
+            if np.isnan(mis).any() or np.isnan(self.inc).any():
+                logger.error('NaN found in solution. Convergence is not likely')
+                break
+
             # check for convergence
             if mis < self.config.tol:
                 self.converged = True
                 break
 
             if self.niter > self.config.max_iter:
-                break
-
-            if np.isnan(mis).any():
-                logger.error('NaN found in solution. Convergence is not likely')
                 break
 
             if mis > 1e4 * self.mis[0]:
